@@ -129,6 +129,9 @@ def enum_dense(tier):
     for n, n_cpu, m, k in ((150, 2, 3, 2), (229, 3, 2, 2), (229, 1, 4, 1), (150, 4, None, 1)):
         yield {"seqs": dense_seqs(n), "k": k, "mode": "default", "n_cpu": n_cpu, **({"max_returns": m} if m else {})}
     yield {"seqs": dense_seqs(140), "k": 2, "mode": "hamming", "n_cpu": 2, "max_returns": 2}
+    for comp in (10, 13, 20):
+        yield {"seqs": dense_seqs(100), "k": 1, "mode": "default", "n_cpu": 1, "max_returns": 2, "compression": comp}
+        yield {"seqs": dense_seqs(80), "k": 2, "mode": "default", "n_cpu": 2, "max_returns": 5, "compression": comp}
 
 
 def enum_grid(tier):
